@@ -263,6 +263,9 @@ pub fn alphabet(n: usize, c: &AlphaCfg) -> Vec<Dev> {
         }
     }
     devs.extend(crate::devs::context_devs());
+    if c.kinds {
+        devs.extend(crate::devs::rare_shape_devs(n, false));
+    }
     devs.extend(crate::devs::syntax_devs(true, false, true, false));
     devs
 }
